@@ -180,6 +180,9 @@ def r2(ctx):
     tests = z4.tests(lambda e: dotted(e) == "self._group_status.supports_turbo")
     ok = bool(apps) and bool(tests) and all(z4.cfg.dominates(z4.branch(t, "true").id, n.id) for t in tests for n in apps) and all("TURBO" in norm_text(n.ast) for n in apps)
     ctx.check(ok, R, "At4Zone.supported_power_states:turbo-iff-supported", m4, z4.node, "TURBO is offered only when the group status reports supports_turbo", "unconditional or missing")
+    z4c = m4.get_class("At4Zone")
+    decs = z4c.method_decorators("supported_power_states")
+    ctx.check(z4c.is_property("supported_power_states") and not any("cache" in d for d in decs), R, "At4Zone.supported_power_states:recomputed", m4, z4.node, "a plain @property evaluated on every call (the turbo flag arrives with every group status; a cached value goes stale)", ", ".join(decs))
     base = [x for x in ast.walk(z4.node) if isinstance(x, ast.List)]
     names = sorted(dotted(e).split(".")[-1] for e in base[0].elts) if base else []
     ctx.check(names == ["OFF", "ON"], R, "At4Zone.supported_power_states:base", m4, z4.node, "OFF and ON are always supported", str(names))
